@@ -34,8 +34,21 @@ def parseLine (toks : List String) : Except String Elt := do
       match rest with
       | kw :: _ => return ⟨name, typ, "U" ++ kw, [], opts⟩
       | [] => throw "U-without-kind"
-    else if typ == "E" && rest[2]? == some "opamp" then
-      return ⟨name, typ, "Eopamp", (rest.take 2) ++ ((rest.drop 3).take 2), opts⟩
+    else if typ == "E" && (rest[2]? == some "opamp" || rest[2]? == some "fdopamp" || rest[2]? == some "inamp") then
+      let cls := "E" ++ (rest[2]?.getD "")
+      match lookupRow cls with
+      | none => throw s!"unknown-class:{cls}"
+      | some row => return ⟨name, typ, cls, (rest.take 2) ++ ((rest.drop 3).take (row.nodePinnames.length - 2)), opts⟩
+    else if (typ == "Q" || typ == "M" || typ == "J") &&
+        ["pnp", "npn", "nmos", "pmos", "njf", "pjf"].contains (rest[3]?.getD "") then
+      return ⟨name, typ, typ ++ (rest[3]?.getD ""), rest.take 3, opts⟩
+    else if typ == "SP" && ["pp", "pm", "ppp", "pmm", "ppm"].contains (rest[0]?.getD "") then
+      let cls := "SP" ++ (rest[0]?.getD "")
+      match lookupRow cls with
+      | none => throw s!"unknown-class:{cls}"
+      | some row => return ⟨name, typ, cls, (rest.drop 1).take row.nodePinnames.length, opts⟩
+    else if typ == "SW" && rest[3]? == some "spdt" then
+      return ⟨name, typ, "SWspdt", rest.take 3, opts⟩
     else
       match lookupRow typ with
       | none => throw s!"unknown-class:{typ}"
@@ -43,12 +56,24 @@ def parseLine (toks : List String) : Except String Elt := do
         if rest.length < row.nodePinnames.length then throw "too-few-nodes"
         else return ⟨name, typ, typ, rest.take row.nodePinnames.length, opts⟩
 
+/-- `@rot <angle> <cos> <sin>` groups after the spacing -/
+def parseRots : List String → Option RotTable
+  | [] => some []
+  | "@rot" :: a :: c :: s :: rest => do
+    let a ← parseRat a
+    let c ← parseRat c
+    let s ← parseRat s
+    let t ← parseRots rest
+    some ((a, c, s) :: t)
+  | _ => none
+
 def parseNetlist (toks : List String) : Except String Netlist := do
   match splitAt "|" toks with
-  | [k] :: lines =>
+  | (k :: rots) :: lines =>
     let some k := parseRat k | throw "bad-spacing"
+    let some rots := parseRots rots | throw "bad-rotation-table"
     let elts ← (lines.filter (!·.isEmpty)).mapM parseLine
-    return ⟨k, elts⟩
+    return ⟨k, elts, rots⟩
   | _ => throw "bad-request"
 
 def parseLayout (toks : List String) : Option Layout :=
@@ -90,7 +115,7 @@ def handle (toks : List String) : Option String :=
       | .ok (all, g) =>
         s!"nodes={",".intercalate (sortStr all)} ; xparts={canonParts all g.xlinks} ; yparts={canonParts all g.ylinks} ; xedges={canonEdges all g.xlinks g.xedges} ; yedges={canonEdges all g.ylinks g.yedges}"
   | "lay.elts" :: rest => some <|
-      match parseNetlist rest >>= resolveAll rotCode with
+      match parseNetlist rest >>= (fun n => resolveAll (rotCodeP n.rots) n) with
       | .error e => "error:" ++ e
       | .ok (_, rs) =>
         " ; ".intercalate (rs.map fun r =>
